@@ -82,7 +82,9 @@ def main(argv=None):
             if props_ok:
                 try:
                     ctx.theorems = core.audit(prop)
-                except core.LeanError as e:
+                except core.EnoughFailures:
+        ctx.note('exploration stopped early: enough failing inputs recorded')
+    except core.LeanError as e:
                     print(e, file=sys.stderr)
                     return 2
                 bad = {t: [x for x in axs if x not in core.ALLOWED_AXIOMS] for t, axs in ctx.theorems.items()}
